@@ -11,6 +11,9 @@ META = {
     "not_decided": "LIFO linearizability and ABA freedom under all interleavings",
 }
 
+META["explanation"] += " " + 'Also: decision tables of wfstack first/next/push/pop_all/empty results over the classes of the head / next word, lfstack push result derived from the replaced head, and the for_each iteration macros (witness unit).'
+META["technique"] = 'static analysis: atomic-step shape rules, decision tables over value classes of loaded/exchanged words (no execution), iteration-macro witness rules over normalised LLVM IR'
+
 
 def _srccalls(f, name):
     m = f.mod
